@@ -160,6 +160,10 @@ def run_twins(ctx, rep, select, floors=None):
             continue
         a, b = by_name.get(name), by_name.get(other)
         if a is None or b is None:
+            if ctx.meta.get('corpus_failed'):
+                # a corpus family does not compile against the current tree (C15 reports that): the pair cannot be compared
+                rep.notes.append('twin pair %s / %s not compared: its corpus family does not compile' % (name, other))
+                continue
             raise Broken('twin pair %s / %s: program missing from the corpus facts' % (name, other))
         n += 1
         rep.programs.add(name); rep.programs.add(other)
